@@ -11,10 +11,13 @@ LEVEL = 'model_checking'
 X64 = True
 RULE = ('inert: model skeletons with <= 3 links (both root kinds, stacks) in '
         'three variants V0 (no collision, no limits), V1 (collidable geoms + '
-        'ground plane far below, min contact distance verified > 0), V2 '
-        '(range limits, q strictly inside before and after the step): one '
+        'ground plane 3 cm below the lowest geom point over the grid as measured '
+        'by MuJoCo, min contact distance verified > 0), V2 '
+        '(symmetric range limits) and V3 (ranges [0.2,0.9] that exclude 0), q '
+        'strictly inside before and after the step: one '
         'step from tensor-grid states, V1 = V0 and V2 = V0 on the whole '
-        'returned state, unit quaternions everywhere, three pipelines. '
+        'V3 = V0 on the whole returned state, unit quaternions everywhere, '
+        'three pipelines. '
         'push-only: {sphere, box, capsule} x (cube rotations + generic) x '
         'density {200,1000,3000} x depth {2,5,10,20} mm x gravity on/off, one '
         'step. resting: the three shapes x size {0.05,0.15,0.3} x density (3) '
@@ -67,21 +70,24 @@ def _inert_models(tier, seed):
   return out
 
 
-def _variant(spec, v):
+def _variant(spec, v, plane_z=-6.0):
   s = dict(spec)
   s['links'] = [dict(l) for l in spec['links']]
   for l in s['links']:
+    if v == 3:
+      l['range'] = [[0.2, 0.9] for _ in l['range']]
     g = dict(l['geom'])
     g['collide'] = (v == 1)
     if v == 1:
       # collide with the ground plane only (links may overlap each other)
       g['contype'], g['conaffinity'] = 0, 1
     l['geom'] = g
-    if v != 2:
+    if v not in (2, 3):
       l['range'] = [None] * len(l['range'])
   if v == 1:
     s['world_geoms'] = [dict(type='plane', size=[5, 5, 0.1], collide=True,
-                             contype=1, conaffinity=0, pos=[0, 0, -6.0])]
+                             contype=1, conaffinity=0,
+                             pos=[0, 0, plane_z])]
   return s
 
 
@@ -111,11 +117,43 @@ def _min_dist():
   return _F['md']
 
 
+def _plane_height(spec, Q):
+  """Ground height 3 cm below the lowest geom point over the grid states,
+  measured with MuJoCo (mj_geomDistance), not with the code under test."""
+  import mujoco
+  _, mj = scope.load(_variant(spec, 1, -6.0))
+  d = mujoco.MjData(mj)
+  low = np.inf
+  for q in Q:
+    d.qpos[:] = q
+    mujoco.mj_forward(mj, d)
+    for g in range(1, mj.ngeom):
+      dist = mujoco.mj_geomDistance(mj, d, 0, g, 50.0, None)
+      low = min(low, dist)
+  return -6.0 + low - 0.03
+
+
 def check_inert(spec, pipe, tier, seed, res):
   if pipe != 'generalized' and not phys.all_supported(spec):
     return
-  rng = scope.rng_for(seed, 'c06g', str(scope.skeleton(spec)), pipe)
-  qs, _ = scope.coord_grid(spec, rng, hk=3, sk=2, cap=64, lo=-1.5, hi=1.5)
+  for asym in (False, True):
+    _check_inert(spec, pipe, tier, seed, res, asym)
+
+
+def _check_inert(spec, pipe, tier, seed, res, asym):
+  """asym=False: V0 vs V1 (contacts) and V2 (symmetric limits) on |q|<=1.5;
+  asym=True: V0 vs V3 (ranges [0.2,0.9] excluding 0) on q in [0.3,0.8]."""
+  rng = scope.rng_for(seed, 'c06g', str(scope.skeleton(spec)), pipe, asym)
+  qs, _ = scope.coord_grid(spec, rng, hk=3, sk=2, cap=64 if not asym else 32,
+                           lo=0.3 if asym else -1.5, hi=0.8 if asym else 1.5)
+  if asym:
+    off = 0
+    for l in spec['links']:
+      w = 7 if l['kind'] == 'F' else len(l['kind'])
+      if l['kind'] != 'F':
+        blk = qs[:, off:off + w]
+        blk[blk == 0.0] = 0.55
+      off += w
   nq, nv = scope.nq_nv(spec)
   nu = len(spec['actuators'])
   rows = []
@@ -128,23 +166,29 @@ def check_inert(spec, pipe, tier, seed, res):
   CH = 64
   outs = {}
   f = _full_step(pipe)
-  for v in (0, 1, 2):
-    sysv, _ = scope.load(_variant(spec, v))
+  variants = (0, 3) if asym else (0, 1, 2)
+  case = dict(kind='inert', spec=spec, pipe=pipe, seed=seed, tier=tier)
+  for v in variants:
+    plane_z = _plane_height(spec, Q) if v == 1 else -6.0
+    sysv, _ = scope.load(_variant(spec, v, plane_z))
     if v == 1:
       md = np.asarray(_min_dist()(phys.strip(sysv), pipes.pad([Q], CH)[0]))
       if not md.min() > 0:
-        res.setdefault('errors', []).append('harness: plane not separated')
+        res['violations'].append(dict(
+            key='C06:separated-contacts:%s' % pipe,
+            what='contact detection reports distance %.3g for geometry that '
+            'is at least 3 cm above the ground (measured with MuJoCo) '
+            '(kinds=%s)' % (md.min(), [l['kind'] for l in spec['links']]),
+            case=case))
         return
     a = pipes.pad([Q, D, C], CH)
     outs[v] = [np.asarray(x)[:len(Q)] for x in f(phys.strip(sysv), *a)]
-    if v == 2:
-      limits = np.array([r for l in spec['links'] for r in l['range']
-                         if r is not None])
   names = ['q', 'qd', 'x.pos', 'x.rot', 'xd.vel', 'xd.ang']
-  # coordinates that carry a limit
+  lv = 3 if asym else 2
+  lim_spec = _variant(spec, lv)
   lim_idx = []
   off = 0
-  for l in spec['links']:
+  for l in lim_spec['links']:
     if l['kind'] == 'F':
       off += 7
     else:
@@ -153,18 +197,19 @@ def check_inert(spec, pipe, tier, seed, res):
           lim_idx.append((off, l['range'][j]))
         off += 1
   for i in range(len(Q)):
-    res['evaluations'] += 2
-    res['transitions'] += 3
-    res['states'] += 3
-    res['nontrivial'] += 2
+    res['evaluations'] += len(variants) - 1
+    res['transitions'] += len(variants)
+    res['states'] += len(variants)
+    res['nontrivial'] += len(variants) - 1
     if not all(np.isfinite(o[i]).all() for o in outs[0]):
       res['extra']['nonfinite'] = res['extra'].get('nonfinite', 0) + 1
       continue
-    for v, tag in ((1, 'separated-contacts'), (2, 'unreached-limits')):
-      if v == 2:
+    for v in variants[1:]:
+      tag = 'separated-contacts' if v == 1 else 'unreached-limits'
+      if v in (2, 3):
         inside = all(r[0] + 1e-3 < Q[i][c] < r[1] - 1e-3 and
                      r[0] + 1e-3 < outs[0][0][i][c] < r[1] - 1e-3 and
-                     r[0] + 1e-3 < outs[2][0][i][c] < r[1] - 1e-3
+                     r[0] + 1e-3 < outs[v][0][i][c] < r[1] - 1e-3
                      for c, r in lim_idx)
         if not inside:
           continue
@@ -173,23 +218,23 @@ def check_inert(spec, pipe, tier, seed, res):
             1 + np.abs(outs[0][k][i]).max())
         if not e <= 1e-9:
           res['violations'].append(dict(
-              key='C06:%s:%s' % (tag, pipe),
-              what='%s: %s changes %s by %.3g after one step (kinds=%s q=%s)'
-              % (pipe, tag, nm, e, [l['kind'] for l in spec['links']],
-                 np.round(Q[i], 3).tolist()),
-              case=dict(kind='inert', spec=spec, pipe=pipe, seed=seed,
-                        tier=tier)))
+              key='C06:%s:%s%s' % (tag, pipe, ':non-orthogonal-stack-axes'
+                                   if (v in (2, 3) and pipe != 'generalized'
+                                       and not phys.orthogonal_stacks(spec))
+                                   else ''),
+              what='%s: %s (variant V%d) changes %s by %.3g after one step '
+              '(kinds=%s q=%s)' % (pipe, tag, v, nm, e,
+                                   [l['kind'] for l in spec['links']],
+                                   np.round(Q[i], 3).tolist()), case=case))
           return
-    for v in (0, 1, 2):
+    for v in variants:
       ne = np.abs(np.linalg.norm(outs[v][3][i], axis=-1) - 1).max()
       if not ne <= 1e-9:
         res['violations'].append(dict(
             key='C06:unit-quaternion:%s' % pipe,
             what='%s: link rotation norm off by %.3g after one step (variant '
             'V%d, kinds=%s)' % (pipe, ne, v, [l['kind'] for l in
-                                              spec['links']]),
-            case=dict(kind='inert', spec=spec, pipe=pipe, seed=seed,
-                      tier=tier)))
+                                              spec['links']]), case=case))
         return
   res['paths'] += len(Q)
 
@@ -197,7 +242,7 @@ def check_inert(spec, pipe, tier, seed, res):
 # ------------------------------------------------------- ground-plane scenes
 
 
-def _scene(shape, size, density, elasticity=0.0, dt=0.002):
+def _scene(shape, size, density, elasticity=0.0, dt=0.002, mass_scale=0.0):
   g = dict(type=shape, collide=True, density=density, pos=None, quat=None)
   if shape == 'sphere':
     g['size'] = [size]
@@ -210,7 +255,8 @@ def _scene(shape, size, density, elasticity=0.0, dt=0.002):
   return dict(links=[l], world_geoms=[dict(type='plane', size=[5, 5, 0.1],
                                            collide=True, pos=[0, 0, 0])],
               actuators=[], option=dict(timestep=dt),
-              custom=dict(elasticity=elasticity))
+              custom=dict(elasticity=elasticity, spring_mass_scale=mass_scale,
+                          spring_inertia_scale=mass_scale))
 
 
 def _lowest(shape, size, pos, rot):
@@ -366,8 +412,11 @@ def check_rebound(pipe, tier, seed, res):
                                (0.2, 0.5, 1.0)))
   if tier == 'quick':
     lat = lat[::3] + lat[1::7]
-  for r, e, h in lat:
-    sys, _ = scope.load(_scene('sphere', r, 1000.0, elasticity=e, dt=0.001))
+  lat = [(r, e, h, 0.0) for r, e, h in lat] + [(0.15, 0.6, 0.5, 0.5),
+                                                (0.3, 0.3, 0.2, 0.5)]
+  for r, e, h, ms in lat:
+    sys, _ = scope.load(_scene('sphere', r, 1000.0, elasticity=e, dt=0.001,
+                               mass_scale=ms))
     n = 1200   # one executable: covers the fall from 1 m plus the rebound
     q = np.array([0, 0, r + h, 1, 0, 0, 0.0])
     pos, rt, vel, ang = [np.asarray(x) for x in f(
@@ -387,9 +436,9 @@ def check_rebound(pipe, tier, seed, res):
     if not (lo <= ratio <= hi):
       res['violations'].append(dict(
           key='C06:rebound:%s' % pipe,
-          what='%s: sphere r=%g elasticity %g dropped from %g: rebound/impact '
+          what='%s: sphere r=%g elasticity %g (mass scale %g) dropped from %g: rebound/impact '
           'speed ratio %.4f outside [%.2f, %.2f] (impact %.3f, rebound %.3f)'
-          % (pipe, r, e, h, ratio, lo, hi, v_in, v_out),
+          % (pipe, r, e, ms, h, ratio, lo, hi, v_in, v_out),
           case=dict(kind='rebound', pipe=pipe, seed=seed, tier=tier)))
       return
 
